@@ -557,6 +557,16 @@ class Interp:
             obj.fields[target.attr] = v
         elif isinstance(target, ast.Subscript):
             obj = self.eval(target.value, env)
+            if isinstance(target.slice, ast.Slice) and isinstance(obj, list):
+                sl = target.slice
+                lo = self.eval(sl.lower, env) if sl.lower is not None else None
+                hi = self.eval(sl.upper, env) if sl.upper is not None else None
+                stp = self.eval(sl.step, env) if sl.step is not None else None
+                try:
+                    obj[lo:hi:stp] = list(self.iterate(v))
+                except (TypeError, ValueError) as e:
+                    raise Raised(type(e).__name__, e.args)
+                return
             idx = self.eval(target.slice, env)
             if isinstance(obj, (list, dict)):
                 obj[idx] = v
@@ -1067,7 +1077,7 @@ class Interp:
             except TypeError as e:
                 raise Raised("TypeError", e.args)
         if name == "enumerate":
-            return list(enumerate(self.iterate(args[0]), *args[1:]))
+            return list(enumerate(self.iterate(args[0]), *args[1:], **kwargs))
         if name == "zip":
             return list(zip(*[self.iterate(a) for a in args]))
         if name == "range":
